@@ -124,8 +124,8 @@ def check_c13(pid, tier, seed, qv):
             ri, rm, rs = Res(fresh), Res(fmach.get(f, "MISSING")), Res(fsem.get(f, "MISSING"))
             if rm.kind not in ("OOF", "MISSING", "UNSUPPORTED") and not (rm.raw == "PANIC progress" and ri.raw == "PANIC progress"):
                 if props.obs_full(Res(got)) != props.obs_full(rm): tie_bad.append((hid_, pos, got, rm.raw))
-                elif rs.kind not in ("OOF", "MISSING", "UNSUPPORTED") and props.obs_vv_emis_last(Res(got)) != props.obs_vv_emis_last(rs):
-                    sem_bad.append((hid_, pos, got, rs.raw))
+                # (whether a single parse meets the specification is C01..C12's business, with their known findings; C13 is about
+                #  purity - history = fresh parser - and the tie, so the specification is shown in samples only)
             if ri.kind == "OK": ok_seen = True
             if ri.kind == "FAIL": fail_seen = True
         if ok_seen and fail_seen and len(m["h"]) >= 3:
